@@ -360,6 +360,19 @@ func (f *Func) reachTarget(
 				skip = true
 				argMap[graph.VertexID(out)] = v.Value
 			}
+
+		case *valueVertex:
+			// A named value that was given directly as an input is an
+			// exact match and is always used as-is, without conversion.
+			if v.Value.IsValid() {
+				for _, dep := range g.OutEdges(out) {
+					if dep == root {
+						skip = true
+						argMap[graph.VertexID(out)] = v.Value
+						state.InputSet[graph.VertexID(out)] = out
+					}
+				}
+			}
 		}
 
 		// If we're skipping then we have this value already. The input it
